@@ -60,3 +60,35 @@ pub static FX_CELL_BAD: std::sync::atomic::AtomicU64 = std::sync::atomic::Atomic
 pub fn fx_unsafe_bad(p: *const u8) -> u8 {
     unsafe { *p }
 }
+
+// ---- L-CLONE: a `Clone` impl that is not field-wise identity ------------------------------------------
+pub struct FxCloneGood {
+    pub a: [u8; 4],
+    pub b: Option<&'static [u8]>,
+}
+impl Clone for FxCloneGood {
+    fn clone(&self) -> Self {
+        Self { a: self.a, b: self.b }
+    }
+}
+pub struct FxCloneDropsOption {
+    pub a: [u8; 4],
+    pub b: Option<&'static [u8]>,
+}
+impl Clone for FxCloneDropsOption {
+    fn clone(&self) -> Self {
+        Self { a: self.a, b: None }
+    }
+}
+pub struct FxCloneResetsBytes {
+    pub a: [u8; 4],
+    pub k: [u8; 4],
+}
+impl Clone for FxCloneResetsBytes {
+    fn clone(&self) -> Self {
+        Self { a: self.a, k: Default::default() }
+    }
+}
+pub fn root_fx__clones(x: &FxCloneGood, y: &FxCloneDropsOption, z: &FxCloneResetsBytes) {
+    let _ = (x.clone(), y.clone(), z.clone());
+}
